@@ -836,7 +836,9 @@ def e2e_search(ctx, shim, r):
             if a != b: stats["semantics-hb-only" if o == b else "semantics-seq-only"] += 1
             continue
         if any(v >= 256 for (_, v, _, _) in f):
-            cls = "value-wraps-mod-256"
+            # outside the property's quantifier ("value <= 255: the engine keeps 8 bits per feature"): counted, not judged
+            stats["value-wraps-mod-256"] += 1
+            continue
         elif any(f[j][0] == f[k][0] and (f[j][2], f[j][3]) != (0, U32) and (f[k][2], f[k][3]) == (0, U32) and f[k][1] == 1
                  for j in range(len(f)) for k in range(j + 1, len(f))):
             cls = "ranged-then-global-same-tag"
